@@ -31,10 +31,10 @@ NOTE = {
  "C02": "Trusted as C01. No explicit pairwise product; see outside_the_claim in the evidence.",
  "C03": "Trusted as C01; header parsing of key/strict flag is outside.",
  "C04": "Trusted as C01 plus: tick time = time at which a coroutine's transactions are built, wall clock monotone. One known finding (create with an already expired timeout answers PENDING).",
- "C05": "Trusted as C01. Three known findings (D1 registration racing completion; losing completion finishes notification tasks; see known_findings.txt).",
+ "C05": "Trusted as C01. Known findings: a losing completion finishes the winner's notification tasks; ambiguous derived registration ids drop a registration (see known_findings.txt). The registration/completion race was repaired (fix 843d054).",
  "C06": "Trusted as C01; durability of the SQL engines assumed; restart not executed.",
  "C07": "Trusted as C01; only ClaimTask at coroutine level so far, the other task coroutines are covered at statement level.",
- "C08": "Trusted as C01; Sender/Router completions arbitrary. One known finding (router error stores the promise without its task).",
+ "C08": "Trusted as C01; Sender/Router completions arbitrary. The router-error defect found here was repaired (fix b64baad).",
  "C11": "Trusted as C01; sequential (fault-free, interference-free) runs for the progress lemmas by definition of the lemma. One known finding (id collision blocks the time-out of a promise for ever).",
  "C12": "Trusted as C01; category model_checking over sequential paths. Goroutine-level behaviour (Signal, Shutdown races, AIO backpressure with blocking channels) is not encoded: seeded changes of that kind are not detected.",
  "C13": "Trusted as C01 plus the front-end stubs (protobuf structs as plain Go values, jwt fork, json contracts). HTTP handlers are not executed.",
